@@ -3,10 +3,17 @@ Obligations travel to worker processes as SMT-LIB2 text."""
 import multiprocessing as mp, subprocess, tempfile, os, time, z3, re
 
 
-def to_smt2(ob):
+def to_smt2(ob, f=None):
     s = z3.Solver()
-    s.add(ob.formula())
-    return s.to_smt2()
+    if f is not None:
+        for c in (f if isinstance(f, list) else [f]):
+            s.add(c)
+    else:
+        for h in ob.hyps:
+            s.add(h)
+        if ob.expect != 'sat':
+            s.add(z3.Not(ob.goal))
+    return '(set-logic ALL)\n' + s.to_smt2()
 
 
 def _z3_worker(args):
@@ -16,7 +23,7 @@ def _z3_worker(args):
         ctx = z3.Context()
         s = z3.Solver(ctx=ctx)
         s.set('timeout', timeout_ms)
-        s.from_string(smt2)
+        s.from_string(smt2 if '(set-logic' in smt2 else '(set-logic ALL)\n' + smt2)
         r = s.check()
         model = None
         if r == z3.sat and want_model:
@@ -70,8 +77,10 @@ def pool(jobs=None):
 
 def discharge(obls, timeout_ms=60000, jobs=None, second=False, portfolio_kinds=('fp',)):
     """fills ob.result = {'status', 'time', 'backend', 'model', 'reason', 'second'}"""
+    from . import quant
     work = []
     texts = {}
+    qf_work = []
     for ob in obls:
         f = ob.formula()
         # trivial cases without a solver call
@@ -81,12 +90,38 @@ def discharge(obls, timeout_ms=60000, jobs=None, second=False, portfolio_kinds=(
             continue
         smt2 = to_smt2(ob)
         texts[ob.name] = smt2
-        work.append((ob.name, smt2, timeout_ms, True))
+        q = quant.qf_version(ob.hyps, ob.goal)
+        if q is not None and ob.expect == 'unsat':
+            hs, g = q
+            qf_work.append((ob.name, to_smt2(ob, hs + [z3.Not(g)]), timeout_ms, True))
+        elif q is not None:
+            # cover (vacuity guard) with quantified hypotheses: checked on the instantiated hypotheses
+            ob.meta['cover_on_instantiated_hypotheses'] = True
+            work.append((ob.name, to_smt2(ob, q[0]), timeout_ms, True))
+        else:
+            work.append((ob.name, smt2, timeout_ms, True))
     byname = {ob.name: ob for ob in obls}
+    P = pool(jobs) if (work or qf_work) else None
+    if qf_work:
+        # quantified obligations: instantiated (quantifier-free) query first; unsat there is a proof
+        for name, r, t, be, model, reason in P.imap_unordered(_z3_worker, qf_work, chunksize=1):
+            if r == 'unsat':
+                byname[name].result = {'status': 'unsat', 'time': t, 'backend': be + ' (hypotheses instantiated at ground index terms)', 'model': None, 'reason': ''}
+            else:
+                byname[name].result = {'status': 'pending', 'time': t, 'qf': {'status': r, 'model': model}}
+                # the instantiated query has a counter-model (or is open): the full quantified query gets a short budget
+                work.append((name, texts[name], min(timeout_ms, 20000) if r == 'sat' else timeout_ms, True))
     if work:
-        P = pool(jobs)
         for name, r, t, be, model, reason in P.imap_unordered(_z3_worker, work, chunksize=1):
-            byname[name].result = {'status': r, 'time': t, 'backend': be, 'model': model, 'reason': reason}
+            prev = byname[name].result or {}
+            qf = prev.get('qf')
+            t += prev.get('time', 0.0)
+            if qf and r not in ('sat', 'unsat') and qf['status'] == 'sat':
+                # full quantified query undecided, instantiated query has a counter-model: report it as a candidate refutation
+                byname[name].result = {'status': 'sat', 'time': t, 'backend': be + ' (counter-model of the instantiated query; full query %s)' % r,
+                                       'model': qf['model'], 'reason': reason, 'candidate': True}
+            else:
+                byname[name].result = {'status': r, 'time': t, 'backend': be, 'model': model if model else (qf or {}).get('model'), 'reason': reason}
         # portfolio for anything z3 left open
         open_ = [(n, texts[n], timeout_ms, False) for n in texts if byname[n].result['status'] in ('unknown', 'error')]
         if open_:
